@@ -106,6 +106,35 @@ theorem silent_simple_trivial (script : List Method) (g : Bool) (s : State) :
   ⟨fun h => (no_timer_reachable silentProtocol (by decide) script g h).1,
    fun h => (no_timer_reachable simpleProtocol (by decide) script g h).1⟩
 
+/-! ### (1) Executor pools: the only other threads / processes the library starts -/
+
+/-- (T) Every construction of a thread, timer, process or executor pool anywhere in oqupy/
+    (table regenerated from the source) is covered: pools are `with`-scoped, timers are the
+    `ProgressBar` timers of the protocol above, nothing else is started. -/
+theorem all_spawns_covered : spawnTable.all SpawnSite.covered = true := by decide
+
+/-- For every executor site of the table, every pool size, every number of submitted tasks
+    and every failing submission (or none): once the `with` block has been left no worker
+    thread / process of that pool exists (given `Executor.__exit__` = `shutdown(wait=True)`). -/
+theorem executors_leave_no_worker (s : SpawnSite) (hs : s ∈ spawnTable)
+    (hk : s.kind = .threadPool ∨ s.kind = .processPool) (maxWorkers n : Nat)
+    (fail : Option Nat) :
+    (runPool s.scope maxWorkers n fail).workers = 0 ∧
+    (runPool s.scope maxWorkers n fail).shut = true := by
+  have hc := List.all_eq_true.1 all_spawns_covered s hs
+  have hw : s.scope = .withStmt := by
+    rcases hk with h | h <;> simpa [SpawnSite.covered, h] using hc
+  rw [hw]
+  exact runPool_with maxWorkers n fail
+
+/-- Why the scope matters: a pool that is kept on an object has a live worker after its first
+    accepted submission and nothing joins it, for every pool size and number of tasks. -/
+theorem stored_executor_leaks (maxWorkers n : Nat) (fail : Option Nat) (hm : 0 < maxWorkers)
+    (hn : 0 < n) (hf : fail ≠ some 0) :
+    0 < (runPool .stored maxWorkers n fail).workers ∧
+    (runPool .stored maxWorkers n fail).shut = false :=
+  runPool_stored maxWorkers n fail hm hn hf
+
 /-! ### The published protocol had the race (model-level counter-schedule) -/
 
 /-- For the `ProgressBar` as published (no lock): the schedule "timer fires; main runs all of
@@ -147,5 +176,14 @@ example :
 
 /-- the bare style really loses the timer, even with the lock protocol: N = 3, item 1 fails -/
 example : (apiFinal lockedProtocol .bare 3 (some 1)).aliveTimers = [1] := by decide
+
+/-- executor sites exist in the table (hypotheses of `executors_leave_no_worker`) -/
+example : ∃ s ∈ spawnTable, s.kind = .threadPool ∧ s.func = "PtTebdBackend.apply_nn_gate_layer" := by
+  decide
+
+/-- 8 workers, 5 tasks, the 4th submission fails: 3 workers exist inside the block, none after
+    it; kept on an object the same run leaves 3 -/
+example : (runPool .withStmt 8 5 (some 3)).workers = 0 ∧ (runPool .stored 8 5 (some 3)).workers = 3 := by
+  decide
 
 end OQuPyVerif.Props.C19
